@@ -159,6 +159,12 @@ func (ex *Executor) evalIdent(name string, env *SpecEnv) (Val, error) {
 	if env.fr != nil {
 		if l, ok := env.fr.locals[name]; ok {
 			if l.isAddr {
+				if env.heapOverride != nil {
+					if p := ex.ptrOf(l.v); p.Kind == PCell && !isStruct(p.Elem) {
+						srt := sortOf(p.Elem)
+						return Val{T: Select(heapGetIn(env.heapOverride, cellName(srt), arrayOf(srt)), p.Base), Ty: p.Elem}, nil
+					}
+				}
 				v := ex.load(env.st, l.v)
 				return v, nil
 			}
@@ -584,6 +590,13 @@ func (ex *Executor) evalCallSpec(e *SExpr, env *SpecEnv) (Val, error) {
 	case "old":
 		c := *env
 		c.inOld = true
+		return ex.evalSpec(e.Args[0], &c)
+	case "pre":
+		// value at the start of the current segment (function entry or loop head)
+		c := *env
+		if env.st != nil && env.st.segHeap != nil {
+			c.heapOverride = env.st.segHeap
+		}
 		return ex.evalSpec(e.Args[0], &c)
 	case "len", "cap":
 		a, err := argv(0)
